@@ -19,6 +19,64 @@ use srtla_protocol::MTU;
 #[cfg(target_os = "linux")]
 pub const BATCH_RECV_SIZE: usize = 32;
 
+/// Scripted send results for the out-of-tree checker (feature `verif-hooks`).
+///
+/// Short `sendmmsg` counts and send errors cannot be provoked on demand from
+/// outside the process, so a thread-local script keyed by the socket's raw fd
+/// is consulted at the top of [`BatchUdpSocket::send_batch`] (`script_batch`)
+/// and [`BatchUdpSocket::send`] (`script_send`). `Accept(n)` really transmits
+/// the first `min(n, offered)` datagrams and returns that count; `Fail(kind)`
+/// transmits nothing and returns the error. Add-only; no production code
+/// touches it and an empty script leaves behaviour unchanged.
+#[cfg(feature = "verif-hooks")]
+pub mod verif_send_script {
+    use std::cell::RefCell;
+    use std::collections::{HashMap, VecDeque};
+
+    #[derive(Clone, Copy, Debug, PartialEq, Eq)]
+    pub enum Scripted {
+        Accept(usize),
+        Fail(std::io::ErrorKind),
+    }
+
+    thread_local! {
+        static BATCH: RefCell<HashMap<i32, VecDeque<Scripted>>> = RefCell::new(HashMap::new());
+        static SINGLE: RefCell<HashMap<i32, VecDeque<Scripted>>> = RefCell::new(HashMap::new());
+    }
+
+    /// Queue results for the next `send_batch` calls on `fd` (replaces any previous script).
+    pub fn script_batch(fd: i32, results: &[Scripted]) {
+        BATCH.with(|m| m.borrow_mut().insert(fd, results.iter().copied().collect()));
+    }
+
+    /// Queue results for the next `send` calls on `fd` (replaces any previous script).
+    pub fn script_send(fd: i32, results: &[Scripted]) {
+        SINGLE.with(|m| m.borrow_mut().insert(fd, results.iter().copied().collect()));
+    }
+
+    /// Drop every script; returns the unconsumed `send_batch` entries per fd.
+    pub fn clear() -> Vec<(i32, Vec<Scripted>)> {
+        SINGLE.with(|m| m.borrow_mut().clear());
+        BATCH.with(|m| {
+            let mut left: Vec<(i32, Vec<Scripted>)> = m
+                .borrow_mut()
+                .drain()
+                .map(|(fd, q)| (fd, q.into_iter().collect()))
+                .collect();
+            left.sort_by_key(|e| e.0);
+            left
+        })
+    }
+
+    pub(super) fn next_batch(fd: i32) -> Option<Scripted> {
+        BATCH.with(|m| m.borrow_mut().get_mut(&fd).and_then(|q| q.pop_front()))
+    }
+
+    pub(super) fn next_send(fd: i32) -> Option<Scripted> {
+        SINGLE.with(|m| m.borrow_mut().get_mut(&fd).and_then(|q| q.pop_front()))
+    }
+}
+
 // ============================================================================
 // Linux implementation with recvmmsg
 // ============================================================================
@@ -119,6 +177,12 @@ mod unix_impl {
 
         /// Send data to the connected peer asynchronously.
         pub async fn send(&self, buf: &[u8]) -> std::io::Result<usize> {
+            #[cfg(feature = "verif-hooks")]
+            if let Some(super::verif_send_script::Scripted::Fail(kind)) =
+                super::verif_send_script::next_send(self.as_raw_fd())
+            {
+                return Err(kind.into());
+            }
             loop {
                 let mut guard = self.inner.ready(Interest::WRITABLE).await?;
 
@@ -151,6 +215,13 @@ mod unix_impl {
             if bufs.is_empty() {
                 return Ok(0);
             }
+            #[cfg(feature = "verif-hooks")]
+            let bufs = match super::verif_send_script::next_batch(self.as_raw_fd()) {
+                Some(super::verif_send_script::Scripted::Fail(kind)) => return Err(kind.into()),
+                Some(super::verif_send_script::Scripted::Accept(0)) => return Ok(0),
+                Some(super::verif_send_script::Scripted::Accept(n)) => &bufs[..n.min(bufs.len())],
+                None => bufs,
+            };
             loop {
                 let mut guard = self.inner.ready(Interest::WRITABLE).await?;
 
